@@ -236,17 +236,10 @@ func (m *PktModel) relayerActions(w *world.World, g Ghost) []relAction {
 	for _, r := range g.Pkts {
 		p := r.P
 		hops := route(p)
-		ok := true
-		for _, h := range hops {
-			if !known(h) {
-				ok = false
-			}
-		}
-		if !ok {
-			continue
-		}
+		// hops that do not exist in this world (a destination nobody has a client for) cannot be relayed to; the hops
+		// before them can
 		want := sha(p.Data)
-		for i := 1; i < len(hops); i++ {
+		for i := 1; i < len(hops) && known(hops[i]); i++ {
 			prev, at := w.C(hops[i-1]), w.C(hops[i])
 			if bytes.Equal(prev.Commitment(p.SourceChain, p.DestinationChain, p.Sequence), want) &&
 				!at.HasReceipt(p.SourceChain, p.DestinationChain, p.Sequence) &&
@@ -255,6 +248,9 @@ func (m *PktModel) relayerActions(w *world.World, g Ghost) []relAction {
 			}
 		}
 		for i := len(hops) - 2; i >= 0; i-- {
+			if !known(hops[i+1]) || !known(hops[i]) {
+				continue
+			}
 			next, at := w.C(hops[i+1]), w.C(hops[i])
 			ackHex, have := g.AckBytes[pid(p)+"@"+next.Name]
 			if !have {
@@ -548,6 +544,14 @@ func legitAck(w *world.World, p packettypes.Packet, ack []byte, at string, proof
 	return ok && bytes.Equal(h, sha(ack))
 }
 
+// pctEscape writes the last character of a name as a percent escape ("achainaaa" -> "achainaa%61").
+func pctEscape(name string) string {
+	if name == "" {
+		return name
+	}
+	return fmt.Sprintf("%s%%%02X", name[:len(name)-1], name[len(name)-1])
+}
+
 // relayTarget says which chain an edited relay-chain field names, relative to the original packet.
 func relayTarget(orig, q packettypes.Packet) string {
 	switch q.RelayChain {
@@ -666,6 +670,14 @@ func (m *PktModel) recvProbes(w *world.World, g Ghost, p packettypes.Packet, at 
 		// wrong proving chain: a genuine proof, but produced by a chain that is not the previous hop
 		add("proof-from-third-chain", p, t, ckey(p), 0, nil)
 	}
+	// chain names written with a percent escape: another name as far as receipts, clean points and the application
+	// are concerned; presented with the genuine proof of the packet's real commitment key
+	q = p
+	q.SourceChain = pctEscape(p.SourceChain)
+	add("source-percent-escaped", q, prev, ckey(p), 0, nil)
+	q = p
+	q.DestinationChain = pctEscape(p.DestinationChain)
+	add("dest-percent-escaped", q, prev, ckey(p), 0, nil)
 	for _, o := range w.Chains {
 		if o.Name != prev && o.Name != at {
 			add("proof-from-"+o.Name, p, o.Name, ckey(p), 0, nil)
@@ -814,6 +826,12 @@ func (m *PktModel) ackProbes(w *world.World, g Ghost, p packettypes.Packet, at s
 	q = p
 	q.SourceChain, q.DestinationChain = p.DestinationChain, p.SourceChain
 	add("endpoints-swapped", q, genuine, world.ProvingChainForAck(q, at), akey(p), 0, nil)
+	q = p
+	q.SourceChain = pctEscape(p.SourceChain)
+	add("source-percent-escaped", q, genuine, next, akey(p), 0, nil)
+	q = p
+	q.DestinationChain = pctEscape(p.DestinationChain)
+	add("dest-percent-escaped", q, genuine, next, akey(p), 0, nil)
 	add("proof-of-commitment-key", p, genuine, next, host.PacketCommitmentKey(p.SourceChain, p.DestinationChain, p.Sequence), 0, nil)
 	add("proof-of-receipt-key", p, genuine, next, host.PacketReceiptKey(p.SourceChain, p.DestinationChain, p.Sequence), 0, nil)
 	for _, o := range w.Chains {
